@@ -337,6 +337,8 @@ def run_harness(spec, h, tier, keep_logs):
     timeout = h["timeout"][tier] if isinstance(h["timeout"], dict) else h["timeout"]
     if os.environ.get("VERIF_TIMEOUT"):
         timeout = int(os.environ["VERIF_TIMEOUT"])
+    if os.environ.get("VERIF_MEM_GB"):
+        h = dict(h, mem_gb=int(os.environ["VERIF_MEM_GB"]))
     with Slot("kani") as slot:
         ensure_target(slot)
         prepare_tree(slot.tree, spec, misses)
@@ -468,8 +470,10 @@ def write_evidence(spec, tier, seed, results, outcome, wall, violations, known_h
         "assumptions": spec.get("assumptions", []),
         "wall_s": round(wall, 1), "violations": violations,
     }
-    os.makedirs(os.path.join(VERIF, "evidence"), exist_ok=True)
-    with open(os.path.join(VERIF, "evidence", f"{prop}.json"), "w") as f:
+    # a run against another tree (VERIF_REPO: seeded changes) or an experimental run must not replace the evidence of /repo
+    evdir = os.path.join(VERIF, "evidence") if REPO == "/repo" and not os.environ.get("VERIF_EXPERIMENTAL") else os.path.join(CACHE, "evidence-other")
+    os.makedirs(evdir, exist_ok=True)
+    with open(os.path.join(evdir, f"{prop}.json"), "w") as f:
         json.dump(ev, f, indent=1)
 
 
